@@ -17,7 +17,7 @@ def configs(tier, seed):
             cfgs.append(("c07", b, KEYS, ("s", "D", "P", "N"), False, 2, seed))
         for b in ("fs+m", "fsc4+m"):
             cfgs.append(("c07", b, [KEYS[0], KEYS[2]], ("s", "D", "P", "E"), False, 3, seed))
-        cfgs.append(("c07", "fs", [KEYS[0], KEYS[2]], ("s", "D"), False, 3, seed))  # metadata under the data path
+        cfgs.append(("c07", "fs", [KEYS[0], KEYS[2]], ("s", "D", "G"), False, 3, seed))  # metadata under the data path; G: a result that pickles differently each time
         # every history kept apart (no state merging) on a small alphabet
         cfgs.append(("c07nm", "fs", [KEYS[0], KEYS[2]], ("D",), True, 3, seed))
         cfgs.append(("c07nm", "fsc4", [KEYS[0], KEYS[2]], ("D",), True, 3, seed))
@@ -28,6 +28,7 @@ def configs(tier, seed):
             cfgs.append(("c07", b, KEYS, ("s", "D", "P", "N", "E"), False, 3, seed))
         for b in ("fs", "fsc4"):
             cfgs.append(("c07", b, [KEYS[0], KEYS[2]], ("s", "D", "P"), False, 5, seed))
+            cfgs.append(("c07", b, [KEYS[0], KEYS[2]], ("G", "D"), False, 4, seed))
             cfgs.append(("c07p", b, [KEYS[0], KEYS[2]], ("P",), False, 6, seed))
     return cfgs
 
